@@ -102,7 +102,7 @@ fn run_case(c: &mut dyn Choices, ctx: &Ctx) -> Outcome {
   let inputs = Inputs::default();
   let expected: Vec<Vec<Ev>> = {
     let mut v = vec![];
-    for o in [Opts::default(), Opts { skip_last_lazy: true, ..Opts::default() }, Opts { take0_immediate: true, ..Opts::default() }, Opts { skip_last_lazy: true, take0_immediate: true, ..Opts::default() }] {
+    for o in [Opts::default(), Opts { skip_last_lazy: true, ..Opts::default() }, Opts { take0_immediate: true, ..Opts::default() }, Opts { skip_last_lazy: true, take0_immediate: true, ..Opts::default() }, Opts { take0_at_first_item: true, ..Opts::default() }, Opts { skip_last_lazy: true, take0_at_first_item: true, ..Opts::default() }] {
       if let Some(t) = model::eval(&case.node, &inputs, o) {
         let e = model::strip(&t);
         if !v.contains(&e) {
